@@ -31,7 +31,7 @@ ASSUMPTIONS = [
 ]
 OPEN_STATEMENTS = [
     'hubbard_sound is proved for the spinless and spinful fermi_hubbard and for the bose_hubbard Model for ALL lattice sizes (spinless_hubbard_sound / spinless_hubbard_sound_edges / spinless_hubbard_sound_spec [matrix elements of the Spec action, no hypothesis on the functional] / spinful_hubbard_sound + spin_site_terms / bose_hubbard_sound: den phi of the site-loop fold = docstring formula summed over the Spec edge set) under the hypotheses ExactSum (every += in the exact regime; holds for the generated dyadic couplings, checked by the correspondence run, not proved in general), real hopping amplitude, phi(n_i n_j) = phi(n_j n_i) (spinless only, discharged for the Spec matrix elements; the spinful and bose theorems hold for every phi); mean_field_dwave, FermiHubbardModel and the particle-hole docstring form are still covered by the docstring / spec.eq oracles only; also proved for all sizes: the bond enumerations equal the Spec edge set, every generated term has zero charge for N (and S_z where conserved) and zero-charge terms preserve the Spec weight of basis states, the grid index bijection',
-    'hermitian_generators is proved for the spinless fermi_hubbard Model (spinless_hubbard_hermitian, same hypotheses as hubbard_sound, real t / U / mu); for the other generators it is covered by the spec.eq / dictionary oracles only',
+    'hermitian_generators is proved for the spinless and the spinful fermi_hubbard Model (spinless_hubbard_hermitian, spinful_hubbard_hermitian on Spec matrix elements, same hypotheses as hubbard_sound, real t / U / mu); for the other generators it is covered by the spec.eq / dictionary oracles only',
     'onsite edge type and spin_pairs_iter: correspondence + Spec oracle only',
     'bose_hubbard / mean_field_dwave / FermiHubbardModel: S_z conservation of FermiHubbardModel is covered by the spec.eq oracle only',
     'su2_relations for all n: oracle only (n <= 3)',
@@ -1038,8 +1038,9 @@ def stream_grid(ctx):
     # volume) would be reused), each time against the independent construction
     grids += [([3, 2], [[1.0, 0.0], [0.0, 4.0]]), ([3, 2], [[4.0, 0.0], [0.0, 1.0]]), ([3, 2], [[2.0, 1.0], [0.0, 2.0]]),
               ([3, 2], 2.0), ([3, 2], [[1.0, 0.0], [0.0, 4.0]]),
-              ([2, 2], [[1.0, 0.0], [0.0, 4.0]]), ([2, 2], [[4.0, 0.0], [0.0, 1.0]]), ([2, 2], 2.0), ([2, 2], [[1.0, 0.0], [0.0, 4.0]]),
               ([3], 2.0), ([3], [[-2.0]]), ([3], 2.0)]
+    if ctx.tier == 'thorough' or ctx.drift:
+        grids += [([2, 2], [[1.0, 0.0], [0.0, 4.0]]), ([2, 2], [[4.0, 0.0], [0.0, 1.0]]), ([2, 2], 2.0), ([2, 2], [[1.0, 0.0], [0.0, 4.0]])]
     if ctx.tier == 'thorough':
         grids += [([2, 2, 2], [[1.0, 0, 0], [0, 1.0, 0], [0, 0, 4.0]]), ([2, 2, 2], [[4.0, 0, 0], [0, 1.0, 0], [0, 0, 1.0]]),
                   ([2, 2, 2], [[1.0, 0, 0], [0, 1.0, 0], [0, 0, 4.0]])]
@@ -1050,6 +1051,11 @@ def stream_grid(ctx):
         # changed source: more grids, still within the quick time limit
         grids += [([6], 1.0), ([2, 2, 2], 1.0), ([3, 3], [[1.2, 0.7], [-0.1, 0.9]]),
                   ([2, 2, 2], [[1.0, 0.2, 0.1], [0.0, 1.1, 0.3], [0.4, 0.0, 0.9]]), ([2, 2], [[0.0, 1.1], [0.7, 0.2]])]
+    # (T) cells given as INTEGER-dtype matrices (all entries Python ints here): the Grid is built from an int64 / int32 array,
+    # the independent construction below uses exact float64 arithmetic on the same cell
+    grids += [([3], [[2]]), ([3, 2], [[2, 1], [0, 3]]), ([2, 2], [[2, 1], [0, 3]])]
+    if ctx.tier == 'thorough' or ctx.drift:
+        grids += [([3, 2], [[2, 0], [0, 3]]), ([2, 3], [[3, -1], [1, 2]])]
     for _ in range(budget(ctx.tier, 2, 8)):
         L = [rng.randint(2, 3), rng.randint(2, 3)]
         M = [[rng.randint(4, 12) / 8, rng.randint(-6, 6) / 8], [rng.randint(-6, 6) / 8, rng.randint(4, 12) / 8]]
@@ -1061,8 +1067,14 @@ def stream_grid(ctx):
         cubic = isinstance(scale, float)
         S = numpy.diag([scale] * dim) if cubic else numpy.array(scale, dtype=float)
         band = 1e-7 if float(numpy.max(numpy.abs(S))) >= 1e3 else 0.0
+        int_cell = (not cubic) and all(isinstance(v, int) and not isinstance(v, bool) for row in scale for v in row)
         try:
-            g = Grid(dim, tuple(L), scale if cubic else numpy.array(scale, dtype=float))
+            if int_cell:
+                cell_dtype = numpy.int64 if (len(L) + sum(L)) % 2 == 0 else numpy.int32
+                s.count('integer-dtype cell:' + cell_dtype.__name__)
+                g = Grid(dim, tuple(L), numpy.array(scale, dtype=cell_dtype))
+            else:
+                g = Grid(dim, tuple(L), scale if cubic else numpy.array(scale, dtype=float))
         except Exception as e:  # noqa: BLE001
             s.violate('Grid raised on an admissible cell', {'length': L, 'scale': scale}, repr(e))
             continue
@@ -1246,7 +1258,107 @@ def stream_grid(ctx):
                 if worst > TOL:
                     s.violate('jordan_wigner_dual_basis_jellium differs from jordan_wigner(dual_basis_jellium_model)',
                               dict(c, include_constant=const), {'term': wk, 'difference': worst})
+    typed_cells(ctx, s)
     return s
+
+
+def typed_cells(ctx, s):
+    """(T) the dtype of the Grid's `scale`: integer / single-precision cell matrices vs the same cell as float64 and vs exact
+    rational arithmetic (an intermediate buffer that inherits an integer dtype would truncate fractional coordinates)"""
+    import importlib
+    import numpy
+    of = ctx.of
+    from openfermion.utils import Grid
+    from openfermion.hamiltonians import jellium as jm
+    pwh = importlib.import_module('openfermion.hamiltonians.plane_wave_hamiltonian')
+    pi = math.pi
+    cells = [((3, 2), [[2, 0], [0, 3]]), ((3,), [[2]]), ((3, 2), [[2, 1], [0, 3]]), ((2, 3), [[3, -1], [1, 2]]), ((4,), [[3]])]
+    if ctx.tier != 'thorough':
+        cells = cells[1:3] if not ctx.drift else cells[1:4]
+    dtypes = ['int64', 'int32', 'int16', 'uint8', 'uint16', 'float32', 'float64', 'python-int', 'list']
+    for L, M in cells:
+        dim = len(L)
+        if any(v < 0 for row in M for v in row):
+            dts = [d for d in dtypes if not d.startswith('uint')]
+        else:
+            dts = dtypes
+        gf = Grid(dim, tuple(L), numpy.array(M, dtype=float))
+        # exact rational geometry
+        FM = [[Fraction(v) for v in row] for row in M]
+        if dim == 1:
+            det = FM[0][0]
+            inv = [[1 / det]]
+        else:
+            det = FM[0][0] * FM[1][1] - FM[0][1] * FM[1][0]
+            inv = [[FM[1][1] / det, -FM[0][1] / det], [-FM[1][0] / det, FM[0][0] / det]]
+        pts = list(itertools.product(*[range(l) for l in L]))
+        ref = {'dual': jm.dual_basis_jellium_model(gf, True, True, True, True), 'dual2': jm.dual_basis_jellium_model(gf, False),
+               'jellium_dual': jm.jellium_model(gf, True, False), 'jellium_pw': jm.jellium_model(gf, True, True, True),
+               'jw': jm.jordan_wigner_dual_basis_jellium(gf, True, True), 'kinetic': jm.plane_wave_kinetic(gf, False),
+               'potential': jm.plane_wave_potential(gf, True), 'dual_kinetic': jm.dual_basis_kinetic(gf, True),
+               'dual_potential': jm.dual_basis_potential(gf, True)}
+        geom = [('H', tuple(float(x) for x in numpy.array(M, dtype=float) @ numpy.array([0.25] * dim))), ('Li', (0.5,) * dim)]
+        ref['external_dual'] = pwh.dual_basis_external_potential(gf, geom, True)
+        ref['external_pw'] = pwh.plane_wave_external_potential(gf, geom, True)
+        ref['jw_hamiltonian'] = pwh.jordan_wigner_dual_basis_hamiltonian(gf, geom, True)
+        for dt in dts:
+            c = {'length': list(L), 'scale': M, 'scale_dtype': dt}
+            try:
+                if dt == 'python-int':
+                    if dim != 1:
+                        continue
+                    g = Grid(dim, tuple(L), M[0][0])
+                elif dt == 'list':
+                    g = Grid(dim, tuple(L), M)
+                else:
+                    g = Grid(dim, tuple(L), numpy.array(M, dtype=getattr(numpy, dt)))
+            except Exception:  # noqa: BLE001
+                s.count('scale type rejected by the tree:' + dt)
+                continue                      # a type the tree rejects is excluded, never an alarm
+            s.case(c)
+            s.count('scale dtype:' + dt)
+            # scipy inverts cells of a dtype narrower than 32 bits in single precision: the reciprocal lattice of such a Grid is
+            # only accurate to ~1e-7 on the unmodified tree; these dtypes are compared at 1e-5, the others at 1e-12
+            single = dt in ('int16', 'uint8', 'uint16', 'float32')
+            tol = 1e-5 if single else 1e-12
+            try:
+                s.float_comparisons += 1 + 2 * dim * len(pts) + dim * dim
+                if abs(float(g.volume_scale()) - float(abs(det))) > (1e-6 if single else 1e-12) * float(abs(det)):
+                    s.violate('Grid.volume_scale() is not |det(scale)| (exact rational arithmetic)', c, {'volume_scale': float(g.volume_scale())})
+                R = numpy.array(g.reciprocal_scale, dtype=float)
+                for i in range(dim):
+                    for j in range(dim):
+                        if abs(R[i, j] - 2 * pi * float(inv[j][i])) > tol * 10:
+                            s.violate('Grid.reciprocal_scale is not 2 pi inv(scale)^T (exact rational arithmetic)', c,
+                                      {'entry': [i, j], 'got': float(R[i, j]), 'expected': 2 * pi * float(inv[j][i])})
+                for pt in pts:
+                    nfr = [Fraction(pt[i] - L[i] // 2, L[i]) for i in range(dim)]
+                    nk = [pt[i] - L[i] // 2 for i in range(dim)]
+                    pos = [float(sum(FM[r][i] * nfr[i] for i in range(dim))) for r in range(dim)]
+                    mom = [2 * pi * float(sum(inv[i][r] * nk[i] for i in range(dim))) for r in range(dim)]
+                    if numpy.max(numpy.abs(numpy.array(g.position_vector(pt), dtype=float) - numpy.array(pos))) > (1e-6 if single else 1e-12):
+                        s.violate('position_vector differs from the exact rational value (integer / narrow scale dtype)', dict(c, indices=list(pt)),
+                                  {'got': numpy.array(g.position_vector(pt), dtype=float).tolist(), 'expected': pos})
+                        break
+                    if numpy.max(numpy.abs(numpy.array(g.momentum_vector(pt), dtype=float) - numpy.array(mom))) > tol * 10:
+                        s.violate('momentum_vector differs from the exact rational value times 2 pi (integer / narrow scale dtype)', dict(c, indices=list(pt)),
+                                  {'got': numpy.array(g.momentum_vector(pt), dtype=float).tolist(), 'expected': mom})
+                        break
+                got = {'dual': jm.dual_basis_jellium_model(g, True, True, True, True), 'dual2': jm.dual_basis_jellium_model(g, False),
+                       'jellium_dual': jm.jellium_model(g, True, False), 'jellium_pw': jm.jellium_model(g, True, True, True),
+                       'jw': jm.jordan_wigner_dual_basis_jellium(g, True, True), 'kinetic': jm.plane_wave_kinetic(g, False),
+                       'potential': jm.plane_wave_potential(g, True), 'dual_kinetic': jm.dual_basis_kinetic(g, True),
+                       'dual_potential': jm.dual_basis_potential(g, True),
+                       'external_dual': pwh.dual_basis_external_potential(g, geom, True),
+                       'external_pw': pwh.plane_wave_external_potential(g, geom, True),
+                       'jw_hamiltonian': pwh.jordan_wigner_dual_basis_hamiltonian(g, geom, True)}
+                for name, op in got.items():
+                    worst, wk = close_dicts(s, float_terms(op), float_terms(ref[name]))
+                    if worst > tol:
+                        s.violate('a jellium / plane-wave generator depends on the dtype of the Grid scale: ' + name, c,
+                                  {'term': wk, 'typed': float_terms(op).get(wk), 'float64': float_terms(ref[name]).get(wk)})
+            except Exception as e:  # noqa: BLE001
+                s.violate('a Grid with this scale dtype is accepted but a helper / generator raised', c, repr(e))
 
 
 # ---------------------------------------------------------------- stream 6: Fourier transforms, external potential, cutoffs
